@@ -1550,9 +1550,11 @@ class Run:
         lv = self.pool[t]
         tp = self.tape
         items = self.gen_items(lo=1)
+        sh = tp.draw(4, "radd-shape")
+        if sh == 3:
+            items = items[:1]      # a bare Operation or a bare Moment on the left of +
         reals = [self.real_item(it) for it in items]
-        sh = tp.draw(3, "radd-shape")
-        tree = [list(reals), tuple(reals), (x for x in reals)][sh]
+        tree = [list(reals), tuple(reals), (x for x in reals), reals[0]][sh]
         self.begin("radd", "ok", t, self.desc_items(items), sh)
         r = tree + lv.c
         N = self.decode(r)
